@@ -191,7 +191,8 @@ inline void file_event(const char *ev, const char *name)
 /**
  * Dumps the chunk list: one array per chunk
  * [type, text, nl_count, preproc, orig_line, orig_col, orig_col_end, orig_prev_sp,
- *  column, column_indent, level, brace_level, pp_level, after_tab, parent_type, nl_column]
+ *  column, column_indent, level, brace_level, pp_level, after_tab, parent_type, nl_column,
+ *  flags: 1 was_aligned, 2 force_space, 4 stmt_start, 8 expr_start, 16 cont_line, 32 in_class, 64 in_namespace]
  */
 inline void dump_chunks(const char *ev)
 {
@@ -217,12 +218,16 @@ inline void dump_chunks(const char *ev)
       first = false;
       fprintf(f, "[\"%s\",", get_token_name(pc->GetType()));
       esc_text(f, pc->GetStr());
-      fprintf(f, ",%zu,%d,%zu,%zu,%zu,%zu,%zu,%zu,%zu,%zu,%zu,%d,\"%s\",%zu]",
+      fprintf(f, ",%zu,%d,%zu,%zu,%zu,%zu,%zu,%zu,%zu,%zu,%zu,%d,\"%s\",%zu,%d]",
               pc->GetNlCount(), pc->TestFlags(PCF_IN_PREPROC) ? 1 : 0,
               pc->GetOrigLine(), pc->GetOrigCol(), pc->GetOrigColEnd(), pc->GetOrigPrevSp(),
               pc->GetColumn(), pc->GetColumnIndent(), pc->GetLevel(), pc->GetBraceLevel(),
               pc->GetPpLevel(), pc->GetAfterTab() ? 1 : 0,
-              get_token_name(pc->GetParentType()), pc->GetNlColumn());
+              get_token_name(pc->GetParentType()), pc->GetNlColumn(),
+              (pc->TestFlags(PCF_WAS_ALIGNED) ? 1 : 0) | (pc->TestFlags(PCF_FORCE_SPACE) ? 2 : 0)
+              | (pc->TestFlags(PCF_STMT_START) ? 4 : 0) | (pc->TestFlags(PCF_EXPR_START) ? 8 : 0)
+              | (pc->TestFlags(PCF_CONT_LINE) ? 16 : 0) | (pc->TestFlags(PCF_IN_CLASS) ? 32 : 0)
+              | (pc->TestFlags(PCF_IN_NAMESPACE) ? 64 : 0));
    }
 
    fputs("]}\n", f);
